@@ -1,4 +1,5 @@
 import GwbVerif.Properties.C06
+import GwbVerif.Properties.C06Walk
 open Gwb
 #print axioms C06_membership_iff
 #print axioms C06_covers_iff_pretest
@@ -13,6 +14,18 @@ open Gwb
 #print axioms C06_line_piece
 #print axioms C06_arc_piece_partial
 #print axioms C06_cartesian_frame
+#print axioms C06_walk_selects_min
+#print axioms C06_walk_selects_min_cartesian
+#print axioms C06_walk_along_eq
+#print axioms C06_walk_trench_point
+#print axioms C06_walk_joint_continuous
+#print axioms C06_walk_joint_frames
+#print axioms C06_walk_joint_gap
+#print axioms C06_walk_joint_gap_side
+#print axioms C06_walk_joint_no_gap_same_dip
+#print axioms C06_walk_joint_overlap
+#print axioms C06_walk_joint_overlap_side
+#print axioms C06_walk_only_positive
 #check @C06_membership_iff
 #check @C06_covers_iff_pretest
 #check @C06_covers_iff
@@ -26,3 +39,15 @@ open Gwb
 #check @C06_line_piece
 #check @C06_arc_piece_partial
 #check @C06_cartesian_frame
+#check @C06_walk_selects_min
+#check @C06_walk_selects_min_cartesian
+#check @C06_walk_along_eq
+#check @C06_walk_trench_point
+#check @C06_walk_joint_continuous
+#check @C06_walk_joint_frames
+#check @C06_walk_joint_gap
+#check @C06_walk_joint_gap_side
+#check @C06_walk_joint_no_gap_same_dip
+#check @C06_walk_joint_overlap
+#check @C06_walk_joint_overlap_side
+#check @C06_walk_only_positive
